@@ -156,6 +156,7 @@ TypeOfE(e) ==
     [] e.k = "addr" -> (TB([k |-> "p", t |-> TypeOfLV(e.l)], 0))
     [] e.k = "cast" -> (TB(e.t, 0))
     [] e.k = "sizeof" -> (TB(IntT("ulong"), 0))
+    [] e.k = "clit" -> (TB(e.t, 0))
     [] e.k = "un" -> (IF e.op = "!" THEN TB(TInt, 0) ELSE TB(PromTB(TypeOfE(e.e)), 0))
     [] e.k = "cond" -> (LET a == TypeOfE(e.a)  b == TypeOfE(e.b) IN
                         IF IsInt(a.t) /\ IsInt(b.t) THEN TB(IntT(UAC(PromTB(a).n, PromTB(b).n)), 0) ELSE TB(a.t, 0))
@@ -176,7 +177,7 @@ TypeOfLV(e) ==
 
 RECURSIVE SizeOfT(_)
 SizeOfT(t) == CASE t.k = "i" -> Size(t.n) [] t.k = "p" -> 8 [] t.k = "a" -> (IF SizeOfT(t.t) < 0 THEN -1 ELSE t.n * SizeOfT(t.t)) [] OTHER -> -1
-RECURSIVE Eval(_), LVal(_)
+RECURSIVE Eval(_), LVal(_), InitVal(_, _)
 (* load through an lvalue, with array-to-pointer decay *)
 LoadLV(lv) ==
   IF ~lv.ok THEN lv
@@ -281,6 +282,8 @@ Eval(e) ==
                 IF e.op = "-" THEN RV(IntT("long"), IF a >= b THEN W(a - b) ELSE Neg(W(b - a)))
                 ELSE RV(TInt, BoolW(CASE e.op = "<" -> a < b [] e.op = "<=" -> a <= b [] e.op = ">" -> a > b [] e.op = ">=" -> a >= b))
          ELSE Bad("operand-types"))
+    [] e.k = "clit" -> (LET iv == InitVal(e.t, e.init) IN      \* compound literal used as an rvalue (6.5.2.5)
+                        IF ~iv.ok THEN iv ELSE IF IsInt(e.t) THEN RV(e.t, iv.val.v) ELSE RV(e.t, iv.val))
     [] e.k = "sizeof" -> (LET t == TypeOfLV(e.l) IN IF SizeOfT(t) < 0 THEN Bad("sizeof-struct") ELSE RV(IntT("ulong"), W(SizeOfT(t))))
     [] OTHER -> ( Bad("unknown-expression " \o e.k))
 
@@ -308,7 +311,6 @@ FuncByName(n) == CP.funcs[CHOOSE j \in 1..Len(CP.funcs) : CP.funcs[j].name = n]
 
 (* initial value of an object of type t from initialiser tree init ([] = none -> zero for statics, indeterminate for autos: the
    generator always initialises autos it reads); scalars: [e |-> expr]; aggregates: [list |-> seq of init] in member order *)
-RECURSIVE InitVal(_, _)
 InitVal(t, init) ==      \* returns [ok, val]
   IF "e" \in DOMAIN init THEN
     LET r == Eval(init.e) IN
@@ -397,6 +399,21 @@ SObs ==
        ELSE IF ~IsInt(r.t) THEN Fail("obs-of-non-integer")
        ELSE /\ cout' = Append(cout, Conv("llong", PromV(r)))
             /\ ck' = Pop /\ CTick /\ UNCHANGED <<cpid, genv, env, mem, cstatus, cret, depth>>
+
+SStatic ==     \* block-scope object with static (or thread) storage duration: created and initialised once (6.2.4p3),
+               \* found again on every later execution of its declaration; initialiser is a constant expression
+  /\ IsStmt("static")
+  /\ LET key == "$" \o S.u IN
+       IF key \in DOMAIN genv
+       THEN /\ env' = (S.n :> genv[key]) @@ env
+            /\ ck' = Pop /\ CTick /\ UNCHANGED <<cpid, genv, mem, cout, cstatus, cret, depth>>
+       ELSE LET iv == IF "init" \in DOMAIN S THEN InitVal(S.t, S.init) ELSE [ok |-> TRUE, val |-> ZeroOf(S.t)]
+                o == NewObj IN
+            IF ~iv.ok THEN Fail(iv.why)
+            ELSE /\ mem' = (o :> [val |-> iv.val, live |-> TRUE]) @@ mem
+                 /\ env' = (S.n :> [obj |-> o, t |-> S.t]) @@ env
+                 /\ genv' = (key :> [obj |-> o, t |-> S.t]) @@ genv
+                 /\ ck' = Pop /\ CTick /\ UNCHANGED <<cpid, cout, cstatus, cret, depth>>
 
 SDecl ==
   /\ IsStmt("decl")
@@ -548,7 +565,7 @@ SMain ==        \* after the globals: enter main's body with the global environm
   /\ genv' = env
   /\ CTick /\ UNCHANGED <<cpid, env, mem, cout, cstatus, cret, depth>>
 
-CNext == SExpr \/ SAsg \/ SObs \/ SDecl \/ SVla \/ SBlock \/ SSeq \/ SIf \/ SLoop \/ SLoopTest \/ SNop \/ SCaseLabel \/ SBreak \/ SContinue
+CNext == SExpr \/ SAsg \/ SObs \/ SDecl \/ SStatic \/ SVla \/ SBlock \/ SSeq \/ SIf \/ SLoop \/ SLoopTest \/ SNop \/ SCaseLabel \/ SBreak \/ SContinue
          \/ SSwitch \/ SSwitchEnd \/ SCall \/ SCallEnd \/ SReturn \/ SRetAsg \/ SEnd \/ COutOfFuel \/ SMain
 
 CSpec == CInit /\ [][CNext]_cvars
